@@ -6,7 +6,16 @@ import os
 import sys
 
 
+def _cwd():
+    try:
+        return os.getcwd()
+    except OSError:
+        return "<deleted>"
+
+
 def main():
+    if os.environ.get("PYAB_CHILD_RMCWD"):
+        os.rmdir(os.getcwd())  # from here on this process has no working directory
     try:
         locale.setlocale(locale.LC_ALL, "")
     except locale.Error:
@@ -48,7 +57,7 @@ def main():
         else:
             out[pos] = list(o[:2])
     real_out.write(json.dumps({"hashseed": os.environ.get("PYTHONHASHSEED"), "locale": locale.setlocale(locale.LC_ALL),
-                               "cwd": os.getcwd(), "results": out}, ensure_ascii=True))
+                               "cwd": _cwd(), "results": out}, ensure_ascii=True))
     real_out.flush()
 
 
